@@ -37,6 +37,8 @@ type ParseOpts struct {
 
 type LocalOpts struct {
 	Context map[string]bool
+	// Err is set when the settings written on the function are invalid.
+	Err error
 }
 
 var EmptyLocalOpts = LocalOpts{Context: map[string]bool{}}
@@ -60,6 +62,10 @@ func Parse(obj types.Object, opts *ParseOpts, localOpts LocalOpts) (*Definition,
 			loc = opts.Location + "\n    "
 		}
 		return fmt.Errorf("%s:\n    %s%s%s\n\n%s", opts.ErrorPrefix, loc, obj.String(), methodDef.ArgDebug("        "), s)
+	}
+
+	if localOpts.Err != nil {
+		return nil, formatErr(localOpts.Err.Error())
 	}
 
 	if !xtype.Accessible(obj, opts.OutputPackagePath) {
